@@ -56,6 +56,7 @@ type Case struct {
 	Target int      `json:"target"` // index of the first event under test
 	Lib    *LibCall `json:"lib,omitempty"`
 	Self   string   `json:"self,omitempty"`
+	WdMs   int      `json:"wd_ms,omitempty"` // watchdog for this run (0: the full one)
 }
 
 type Violation struct {
@@ -78,7 +79,11 @@ type Result struct {
 	Micros    int64        `json:"us"`
 }
 
-var watchdog = 60 * time.Second
+// fullWatchdog is the bound a violation is judged by. The exploration pass runs with
+// a much shorter "suspect" watchdog (cases that normally take microseconds); every
+// suspected hang is then confirmed with the full one before it is reported.
+var fullWatchdog = 60 * time.Second
+var watchdog = fullWatchdog
 
 // ---------------------------------------------------------------------------
 // environment (one per worker process)
@@ -343,7 +348,7 @@ func lockBlocked(state string) bool {
 var (
 	reAddr  = regexp.MustCompile(`0x[0-9a-f]+`)
 	reFrame = regexp.MustCompile(`(?m)^(\S[^\n]*)\n\t(\S+):(\d+)`)
-	reNum   = regexp.MustCompile(`\d+`)
+	reNum   = regexp.MustCompile(`(^|[^A-Za-z0-9_])\d+`)
 )
 
 type frame struct {
@@ -408,6 +413,9 @@ func site4(stack string, afterPanic bool) (siteFn, siteLoc, handler, callee stri
 	for i := start; i < len(fs); i++ {
 		if strings.HasPrefix(fs[i].fn, gocoinPfx) && !strings.Contains(fs[i].fn, ".Run.func") {
 			siteFn, siteLoc = short(fs[i].fn), baseFile(fs[i].file)+":"+fs[i].line
+			if sl := lineSlug(siteLoc, fs[i].file); sl != "" {
+				siteFn += "{" + sl + "}"
+			}
 			break
 		}
 	}
@@ -427,7 +435,7 @@ func site4(stack string, afterPanic bool) (siteFn, siteLoc, handler, callee stri
 		handler = "Run"
 	}
 	if callee == "" {
-		callee = siteFn
+		callee = strings.SplitN(siteFn, "{", 2)[0]
 	}
 	return
 }
@@ -440,12 +448,42 @@ func normMsg(m string) string {
 	m = strings.TrimPrefix(m, "pkg: ")
 	m = strings.TrimPrefix(m, "runtime error: ")
 	m = reAddr.ReplaceAllString(m, "")
-	m = reNum.ReplaceAllString(m, "N")
+	if i := strings.Index(m, " ["); i > 0 && (strings.HasPrefix(m, "slice bounds") || strings.HasPrefix(m, "index out of range")) {
+		m = m[:i] // the offending numbers / shape are in the description, not in the key
+	}
+	m = reNum.ReplaceAllString(m, "${1}N")
 	m = strings.Join(strings.Fields(m), "-")
 	if len(m) > 70 {
 		m = m[:70]
 	}
 	return m
+}
+
+// lineSlug identifies a source line by its text (stable when lines above it move,
+// changes when the line itself is edited - which is what a fix does).
+func lineSlug(loc string, full string) string {
+	b, err := os.ReadFile(full)
+	if err != nil {
+		return ""
+	}
+	var ln int
+	fmt.Sscan(loc[strings.LastIndex(loc, ":")+1:], &ln)
+	lines := strings.Split(string(b), "\n")
+	if ln < 1 || ln > len(lines) {
+		return ""
+	}
+	var sb strings.Builder
+	for _, r := range strings.TrimSpace(lines[ln-1]) {
+		if r >= 'a' && r <= 'z' || r >= 'A' && r <= 'Z' || r >= '0' && r <= '9' || r == '_' {
+			sb.WriteRune(r)
+		} else if sb.Len() > 0 && !strings.HasSuffix(sb.String(), "-") {
+			sb.WriteByte('-')
+		}
+		if sb.Len() >= 48 {
+			break
+		}
+	}
+	return strings.Trim(sb.String(), "-")
 }
 
 // ---------------------------------------------------------------------------
@@ -912,6 +950,10 @@ func memTotal() uint64 {
 func workerMain(prefixDir, scratch string) {
 	in := bufio.NewReaderSize(os.NewFile(3, "cases"), 1<<20)
 	out := os.NewFile(4, "results")
+	progressOut = out
+	if wd := os.Getenv("C18_WATCHDOG"); wd != "" {
+		fullWatchdog, _ = time.ParseDuration(wd)
+	}
 	os.MkdirAll(scratch, 0o755)
 	var n *nodeEnv
 	enc := json.NewEncoder(out)
@@ -926,6 +968,10 @@ func workerMain(prefixDir, scratch string) {
 		}
 		t0 := time.Now()
 		var res Result
+		watchdog = fullWatchdog
+		if cs.WdMs > 0 {
+			watchdog = time.Duration(cs.WdMs) * time.Millisecond
+		}
 		switch cs.Kind {
 		case "net":
 			if n == nil {
